@@ -4,6 +4,7 @@ import (
 	"fmt"
 	"go/types"
 	"sort"
+	"strings"
 
 	"golang.org/x/tools/go/ssa"
 )
@@ -68,6 +69,9 @@ func (s *State) heapGet(key string, srt *Sort) *Term {
 }
 
 func (s *State) heapSet(key string, t *Term) {
+	if debugKey != "" && strings.Contains(key, debugKey) {
+		fmt.Printf("heapSet %s := %.200s\n%s\n", key, t.String(), shortStack())
+	}
 	heapSorts[key] = t.Sort
 	if _, ok := heap0[key]; !ok {
 		initialHeap(key, t.Sort)
@@ -91,9 +95,8 @@ func valEq(a, b Val) bool {
 		return false
 	}
 	if a.Ptr != b.Ptr {
-		// the address of the same local, taken in different unrolled iterations
-		if a.Ptr == nil || b.Ptr == nil || a.Ptr.Kind != PLocal || b.Ptr.Kind != PLocal ||
-			a.Ptr.Alloc != b.Ptr.Alloc || len(a.Ptr.Path) != 0 || len(b.Ptr.Path) != 0 {
+		// structurally identical meta pointers (the same location computed on two paths)
+		if a.Ptr == nil || b.Ptr == nil || !sameMetaPtr(a.Ptr, b.Ptr) {
 			return false
 		}
 	}
@@ -211,7 +214,10 @@ func mergeStates(ins []edgeIn) (*State, error) {
 		}
 		m, err := mergeVals(conds, vals)
 		if err != nil {
-			return nil, fmt.Errorf("merging local %s: %v", k.Comment, err)
+			// typically the stale parameter cell of an inlined callee that was called with different
+			// interior pointers on the two paths: drop it; a later read of a dropped local is an
+			// engine error ("not initialised in this state"), never a silent default
+			continue
 		}
 		out.Allocs[k] = m
 	}
